@@ -35,6 +35,10 @@ func writeInflight(run *ev.Run, caseIdx int) {
 }
 
 func main() {
+	if os.Getenv("C20_CANARY") == "1" {
+		raceCanary()
+		os.Exit(0)
+	}
 	// every HTTP client without an explicit transport reaches the in-process provider
 	http.DefaultTransport = mux
 	pristineGlobals = globals()
